@@ -8,7 +8,7 @@ PROPS = {
     "C06": [J("^TestC06RefusedChangesNothing$", 1500, 12000, shards=8)],
     "C07": [J("^TestC07Withdraw$", 1200, 8000, shards=8)],
     "C08": [J("^TestC08PeerRequests$", 1500, 10000, shards=8)],
-    "C09": [J("^TestC09HostRegistry$", 1200, 8000, shards=8)],
+    "C09": [J("^TestC09HostRegistry$", 1200, 8000, shards=8), J("^TestC09Binary$", 40, 300, shards=3)],
     "C10": [J("^TestC10Concurrent$", 60, 400, shards=6, race=True), J("^TestC10Serialisable$", 400, 3000, shards=8), J("^TestC10Snapshots$", 1500, 12000, shards=4)],
     "C11": [J("^TestC11PeerExpiry$", 2500, 20000, shards=8)],
     "C12": [J("^TestC12Lockstep$", 2500, 12000, shards=8), J("^TestC12LockstepOnDisk$", 1, 1200, shards=6, tier="thorough")],
